@@ -20,6 +20,16 @@ func (m *monC05) Name() string     { return "C05" }
 func (m *monC05) Finish(r *Runner) {}
 
 func (m *monC05) classify(r *Runner, s *Snap, pk PosKey, op, errs string) string {
+	// x/staking removed the validator (unbonded, nobody holds staking shares of it) while alliance delegations
+	// pointed at it: every message and query of those positions needs the validator record (open finding)
+	if _, ok := s.StVals[pk.Val]; !ok && op != "delegate" && (strings.Contains(errs, "does not exist") || strings.Contains(errs, "not found")) {
+		return op + ":validator-removed-by-staking"
+	}
+	// ... and the same operator created the validator again: the new record starts without shares, the old
+	// delegations are still there and cannot be taken out of it
+	if op != "delegate" && r.strandedPos(s, pk.Val, pk.Denom) {
+		return op + ":validator-removed-by-staking-and-created-again"
+	}
 	switch {
 	case strings.Contains(errs, "insufficient funds") && strings.Contains(errs, "spendable balance") && (op == "claim" || s.BalOf(r.W.ModuleAddr, pk.Denom).IsPositive()):
 		// the implicit or explicit reward claim cannot be paid by the rewards pool (open finding C12)
